@@ -521,6 +521,14 @@ example : Spec.separated (.collection [.point (pt 0 0), .collection [.lineString
     (.collection [.collection [.lineString [pt 1 (21/20), pt 2 2]], .point (pt 0 0)]) = true := by decide +kernel
 example : sim (.collection [.point (pt 0 0), .collection [.lineString [pt 1 1, pt 2 2]]]) (1/10)
     (.collection [.collection [.lineString [pt 1 (21/20), pt 2 2]], .point (pt 0 0)]) = true := by decide +kernel
+/-- rings that visit a vertex twice ("pinched": two triangles sharing P) are NOT excluded by any
+hypothesis: `C15_perturb_ring` applies to them; here every start-vertex pair of the cycle
+P,A,B,P,C,D is evaluated on the model (36 pairs), including the one where the argument's first
+occurrence of P is not the one corresponding to the receiver's start. -/
+private def pinch : List P := [pt 0 0, pt 2 0, pt 2 1, pt 0 0, pt (-2) 0, pt (-2) (-1), pt 0 0]
+example : (List.range 6).all (fun i => (List.range 6).all fun j =>
+    ringSimilar (Spec.rotateRing i pinch) (Spec.rotateRing j pinch) (1/10)) = true := by decide +kernel
+example : Spec.ptsNear pinch pinch (1/10) = true ∧ 2 ≤ pinch.length ∧ 3 < pinch.length - 1 := by decide +kernel
 end Examples
 
 end GeomV.C15
